@@ -200,16 +200,20 @@ def pad_fields_with_symmetry_mirror(
 
 def get_anisotropic_averaging_widths(
     config: SimulationConfig,
+    objects: ObjectContainer | None = None,
 ) -> tuple[jax.Array, jax.Array, jax.Array] | None:
     """Build the per-axis cell widths that spacing-weight the off-diagonal anisotropic average.
 
     The result depends only on the run-fixed grid, so the averaging functions take it as a
     precomputed input and operate on arrays alone; under JIT it folds to a constant with no
-    per-step cost. Each entry is the axis cell widths padded by replicating the edge cell (to
-    line up with the field halo) and reshaped to broadcast along that axis.
+    per-step cost. Each entry is the axis cell widths padded like the field halo (wrapped on
+    the periodic axes of ``objects``, the edge cell replicated elsewhere) and reshaped to
+    broadcast along that axis.
 
     Args:
         config (SimulationConfig): Simulation configuration providing the resolved grid.
+        objects (ObjectContainer | None): Simulation objects; their boundaries decide which
+            axes wrap. None treats every axis as non-periodic.
 
     Returns:
         tuple[jax.Array, jax.Array, jax.Array] | None: Per-axis padded cell widths, or None on
@@ -219,10 +223,14 @@ def get_anisotropic_averaging_widths(
         return None
     grid = config.resolved_grid
     assert grid is not None  # narrowed by has_nonuniform_grid
+    wrap_axes = (False, False, False) if objects is None else get_wrap_padding_axes(objects)
     widths = []
     for axis in range(3):
         axis_widths = grid.cell_widths(axis)
-        padded = jnp.concatenate([axis_widths[:1], axis_widths, axis_widths[-1:]])
+        if wrap_axes[axis] and config.symmetry[axis] == 0:
+            padded = jnp.concatenate([axis_widths[-1:], axis_widths, axis_widths[:1]])
+        else:
+            padded = jnp.concatenate([axis_widths[:1], axis_widths, axis_widths[-1:]])
         broadcast_shape = [1, 1, 1]
         broadcast_shape[axis] = padded.shape[0]
         widths.append(padded.reshape(broadcast_shape))
@@ -366,7 +374,7 @@ def update_E(
         E_pad = pad_fields_for_boundaries(arrays.fields.E, objects, config)
 
         # Spacing weights for the off-diagonal average (None on a uniform grid).
-        aniso_widths = get_anisotropic_averaging_widths(config)
+        aniso_widths = get_anisotropic_averaging_widths(config, objects)
         # Compute the averages of the fields and curl
         Ex_y_avg = avg_anisotropic_E_component(
             E_pad, component=0, location=1, aniso_widths=aniso_widths
@@ -622,7 +630,7 @@ def update_E_reverse(
         curl_pad = pad_fields_for_boundaries(curl, objects, config)
 
         # Spacing weights for the off-diagonal average (None on a uniform grid).
-        aniso_widths = get_anisotropic_averaging_widths(config)
+        aniso_widths = get_anisotropic_averaging_widths(config, objects)
         # Compute the averages of the fields and curl
         Ex_y_avg = avg_anisotropic_E_component(
             E_pad, component=0, location=1, aniso_widths=aniso_widths
@@ -763,7 +771,7 @@ def update_H(
         curl_pad = pad_fields_for_boundaries(curl, objects, config)
 
         # Spacing weights for the off-diagonal average (None on a uniform grid).
-        aniso_widths = get_anisotropic_averaging_widths(config)
+        aniso_widths = get_anisotropic_averaging_widths(config, objects)
         # Compute the averages of the fields and curl
         Hx_y_avg = avg_anisotropic_H_component(
             H_pad, component=0, location=1, aniso_widths=aniso_widths
@@ -943,7 +951,7 @@ def update_H_reverse(
         curl_pad = pad_fields_for_boundaries(curl, objects, config)
 
         # Spacing weights for the off-diagonal average (None on a uniform grid).
-        aniso_widths = get_anisotropic_averaging_widths(config)
+        aniso_widths = get_anisotropic_averaging_widths(config, objects)
         # Compute the averages of the fields and curl
         Hx_y_avg = avg_anisotropic_H_component(
             H_pad, component=0, location=1, aniso_widths=aniso_widths
